@@ -98,6 +98,9 @@ Definition run (fields : list str) : list str :=
         | [k] => [str_of_bool (accept k [])]
         | [] => [[63]]
         end
+      (* itemok bytes : is this what may stand between the header and the end tag *)
+      else if tag_is tag [105;116;101;109;111;107] then
+        match rest with b :: _ => [str_of_bool (item_ok b)] | [] => [str_of_bool (item_ok [])] end
       else [[63]]
   | [] => [[63]]
   end.
